@@ -21,7 +21,7 @@ BOUNDED_ONLY = ('No function of this property is under a discharged contract yet
 STANDIN = ' The bounded stand-in (differential run of the real code against an independent executable reference, stated bound in the evidence) additionally runs on every check as a cross-check and decides the clauses listed as not under contract.'
 
 TEXTS = {
- 'C01': T('other', PV + '; the conversion step (BaseMatcher.constuct) is an ASSUMED contract, cross-checked by the bounded stand-in',
+ 'C01': T('other', PV + '; one ASSUMED precondition (finish() at most once per matcher); bounded stand-in as a cross-check',
           'Proved for all inputs and heaps satisfying the representation invariant of section types: the slot search '
           'getsectioninfo (first child in schema order that reacts to the header; fixed name claims by name then type, */+ slot by '
           'type or registered implementer; name rule); key routing BaseMatcher.addValue (key-type normalisation, declared key or '
@@ -29,22 +29,28 @@ TEXTS = {
           'in file order, whole-map postcondition); addSection (name reuse, single slot full); createChildMatcher / '
           'SectionMatcher.__init__ (name rule, unnamed only for *); BaseMatcher.finish (completion: raises ConfigurationError iff '
           'some child is incomplete = first_incomplete(...) >= 0, defaults filled in exactly as complete_slot says, loop invariant '
-          'over the children); ConfigLoader.startSection (unknown or abstract type refused), endSection (finish then addSection '
+          'over the children); BaseMatcher.constuct (every collected value of every child is converted under its declared datatype, or a '
+          'DataConversionError carrying a position is raised; five loops with invariants; no AttributeError / TypeError possible because '
+          'unfinished matchers hold collected values only - matcher invariant MI-unconverted-until-finished); ConfigLoader.startSection (unknown or abstract type refused), endSection (finish then addSection '
           'under the header type and name), loadResource (new matcher per load, result built only after finish()). Matcher '
           'invariants (slot kinds per child kind) are proved preserved by every one of these functions.',
-          'NOT proved: BaseMatcher.constuct (the datatype conversion of the collected values) is an assumed contract (listed in the '
-          'evidence): "every value converts under its declared datatype" rests on it and on the bounded stand-in. Assumed: datatype '
+          'NOT proved: that finish() is called at most once per matcher (assumed precondition `not self.finished`, a ghost flag; it is '
+          'the nesting discipline of the parser) - listed under assumed_requires in the evidence. Assumed: datatype '
           'and key-type callables are pure functions that return or raise ValueError; the representation invariant of section types '
-          '(children well-formed, attributes distinct) holds for schemas produced by the schema loader (C10 is bounded only).' + STANDIN),
- 'C02': T('other', PV + ' for defaults / attributes / section value; conversion step assumed; bounded stand-in',
+          '(children well-formed, attributes distinct, key children have a datatype and unconverted defaults) holds for schemas produced by the schema loader (proved for the info.py constructors and the element handlers of schema.py, C10).' + STANDIN),
+ 'C02': T('other', PV + ' for defaults / attributes / conversion / section value; bounded stand-in as a cross-check',
           'Proved: every attribute starts empty in the kind-specific shape (matcher __init__); values are recorded in file order per '
           'attribute and nothing else changes (addValue / addSection whole-map postconditions); finish() fills in the schema defaults '
           'exactly where the text gave nothing (complete_slot; wildcard-key defaults all-or-nothing) and hands constuct that state '
           '(ghost assertion at the call); getdefault returns a COPY (ownership obligation); SectionValue / createValue expose exactly '
           'the attributes of the matcher, the section name and the matcher (type); SchemaMatcher.finish applies the schema datatype '
-          'to the top-level value; ValueInfo.convert = datatype(value) or DataConversionError with the value and its position.',
-          'NOT proved: BaseMatcher.constuct (conversion of lists / wildcard maps / sections) is an assumed contract conv_ok, '
-          'cross-checked by the bounded stand-in (~110 000 accepted texts per quick run against an independent reference tree). '
+          'to the top-level value; ValueInfo.convert = datatype(value) or DataConversionError with the value and its position; '
+          'BaseMatcher.constuct: for every child the slot after conversion is conv_ok of the completed slot - a single key its converted '
+          'value or None, a multikey its converted values in file order, a wildcard key / multikey the mapping with the same keys in the '
+          'same order to converted value(s) (schema defaults only when the text gave no key at all), a section slot the section value '
+          'passed through the datatype of the section\'s own type, a multisection those in file order; the attribute names are unchanged.',
+          'Assumed precondition: finish() at most once per matcher (see C01). The bounded stand-in (~110 000 accepted texts per quick '
+          'run against an independent reference tree) cross-checks the whole tree. '
           'Attribute-name derivation (schema.get_name_info) is not under contract.' + STANDIN),
  'C03': T('proof', PV + ' + leftmost-first automaton equivalence for the two line regexes (all string lengths)',
           'All 13 functions of cfgparser.ZConfigParser are verified against the line grammar written from the statement: nextline '
@@ -104,8 +110,8 @@ TEXTS = {
           '</t>; BaseMatcher.addValue stores exactly the position it is given and reports key-type errors at it; ValueInfo.convert '
           'raises DataConversionError with that position, the value and the original exception; nextline counts lines per resource; '
           'override values are fed with (line, column, source) positions.',
-          'Assumed: conversion errors raised inside constuct carry the stored position (assumed contract, bounded stand-in: 46 000 '
-          'single-fault injections per quick run).' + STANDIN),
+          'Conversion errors raised inside constuct come from ValueInfo.convert (position of the value, proved) or from a section '
+          'datatype ((-1, -1, None), as the code says); the bounded stand-in injects 46 000 single faults per quick run.' + STANDIN),
  'C09': T('other', PV + ' + automaton language equivalence for the regex datatypes + binding obligations on the live registry; bounded stand-in for the datatypes not under contract',
           'Regex datatypes (basic-key, identifier, dotted-name, dotted-suffix, ipaddr-or-hostname): the live pattern under '
           '"prefix match then compare with the whole string" accepts exactly the specified language and loses no string of its plain '
@@ -179,7 +185,7 @@ TEXTS = {
           'define names are lower-cased before use, <t/> performs exactly open + close. The specification-level lemmas (rewrites '
           'commute with Events) are not mechanised; the relational stand-in decides the property (79 000 rewritten texts per quick run).',
           '' + STANDIN),
- 'C16': T('other', PV + ' for CompositeHandler and the handler-list plumbing; handler entries of constuct assumed; bounded stand-in',
+ 'C16': T('other', PV + ' for CompositeHandler and the handler-list plumbing; the per-item entries appended by constuct are decided by the bounded stand-in',
           'Proved: CompositeHandler.__call__ (three loops with invariants): names normalised with the registry\'s basic-key '
           'conversion (norm_map fold), ConfigurationError before any call iff two names normalise to the same key or some entry\'s '
           'name is unmapped, otherwise every entry\'s callable is invoked exactly once, in entry order, with the entry\'s value, '
@@ -188,8 +194,8 @@ TEXTS = {
           'SchemaMatcher.finish appends the schema-level entry last with the converted top-level value; loadResource builds the '
           'composite handler over the handler list of this load. Binding obligation: Registry().get("basic-key") is the stock '
           'basic-key conversion.',
-          'The per-item entries appended by constuct (schema order, value identical to the tree\'s) are part of its assumed '
-          'contract: bounded stand-in (480 000 handler placements / maps per quick run).' + STANDIN),
+          'constuct is under contract for the conversion, but its contract does not yet say WHAT it appends to the handler list '
+          '(schema order, value identical to the tree\'s): bounded stand-in (480 000 handler placements / maps per quick run).' + STANDIN),
  'C17': T('other', PV + ' for the loader side; the serialiser Section.__str__ is not under contract: bounded stand-in decides the round trip',
           'Proved: the schema-less context records what the parser delivers - addValue appends the value to the list of its key in file '
           'order and changes nothing else, startSection creates an empty section of the given (lower-cased) type and name and appends it '
